@@ -526,6 +526,7 @@ func runC15(c *Ctx) {
 			rep.Sample(w)
 		}
 	})
+	runC15TLS(c, pki)
 }
 
 func verClass(v int) string {
